@@ -782,6 +782,7 @@ pub fn run_scenario(r: &mut Rng, ring: &KeyRing, f: Focus) -> Option<Outcome> {
     }
 
     // ---------------------------------------------------------------- mint / burn
+    let mut mint_builder_used = false;
     if s.p(s.f.mint) {
         let mut mb = MintBuilder::new();
         let npol = 1 + s.r.below(2);
@@ -846,6 +847,107 @@ pub fn run_scenario(r: &mut Rng, ring: &KeyRing, f: Focus) -> Option<Outcome> {
             }
         }
         g!(s, "set_mint_builder", tb.set_mint_builder(&mb));
+        mint_builder_used = true;
+    }
+
+    // the TransactionBuilder's own (deprecated) mint entry points, native scripts only: after a MintBuilder was
+    // set they extend it, without one they create it; set_mint replaces everything and is only issued alone
+    if s.p(3) {
+        let n = 1 + s.r.below(2);
+        for _ in 0..n {
+            let six = s.r.usize(ring.natives.len());
+            let script = ring.natives[six].clone();
+            let pid = script.hash().to_bytes();
+            // one manner per script hash per scenario: these entry points take the script itself
+            if s.declared_refs.iter().any(|(hh, _)| *hh == pid) {
+                continue;
+            }
+            if !s.log.iter().any(|l| l.contains(&format!("inline-script {}", hx(&pid)))) {
+                s.log.push(format!("inline-script {}", hx(&pid)));
+            }
+            let name = vec![0x64, s.r.below(3) as u8];
+            let an = AssetName::new(name.clone()).unwrap();
+            let q = 1 + s.r.below(1000);
+            let route = s.r.below(if mint_builder_used { 4 } else { 5 });
+            match route {
+                0 => {
+                    let burn = s.p(4);
+                    let amt = if burn { Int::new_negative(&BigNum::from(q)) } else { Int::new(&BigNum::from(q)) };
+                    let res = g!(s, "add_mint_asset", tb.add_mint_asset(&script, &an, &amt));
+                    s.log.push(format!("tb.add_mint_asset n{} {} {}{} -> {}", six, hx(&name), if burn { "-" } else { "+" }, q, res.as_ref().map(ok_str).unwrap_or("PANIC".into())));
+                    if let Some(Ok(())) = res {
+                        *need_assets.entry((pid.clone(), name.clone())).or_insert(0) += if burn { q as i128 } else { -(q as i128) };
+                    }
+                }
+                1 => {
+                    let mut ma = MintAssets::new();
+                    let burn = s.p(4);
+                    let amt = if burn { Int::new_negative(&BigNum::from(q)) } else { Int::new(&BigNum::from(q)) };
+                    let _ = ma.insert(&an, &amt);
+                    let name2 = vec![0x64, 7];
+                    let two = s.r.bool();
+                    if two {
+                        let _ = ma.insert(&AssetName::new(name2.clone()).unwrap(), &Int::new(&BigNum::from(5u64)));
+                    }
+                    let res = g!(s, "set_mint_asset", tb.set_mint_asset(&script, &ma));
+                    s.log.push(format!("tb.set_mint_asset n{} {} {}{} (+second entry: {}) -> {}", six, hx(&name), if burn { "-" } else { "+" }, q, two, res.as_ref().map(ok_str).unwrap_or("PANIC".into())));
+                    if let Some(Ok(())) = res {
+                        // (set replaces an earlier amount of the same asset: the bookkeeping here only steers the inputs)
+                        need_assets.insert((pid.clone(), name.clone()), if burn { q as i128 } else { -(q as i128) });
+                        if two {
+                            need_assets.insert((pid.clone(), name2.clone()), -5);
+                        }
+                    }
+                }
+                2 | 3 => {
+                    let k = s.key_ix();
+                    let addr = s.key_address(k);
+                    let ob = match TransactionOutputBuilder::new().with_address(&addr).next() {
+                        Ok(b) => b,
+                        Err(_) => continue,
+                    };
+                    let before: u128 = tb.get_explicit_output().map(|v| u64::from(v.coin()) as u128).unwrap_or(0);
+                    let amt = Int::new(&BigNum::from(q));
+                    let res = if route == 2 {
+                        let coin = *s.r.pick(&[1_500_000u64, 2_000_000, 900_000, 5_000_000_000]);
+                        let r = g!(s, "add_mint_asset_and_output", tb.add_mint_asset_and_output(&script, &an, &amt, &ob, &BigNum::from(coin)));
+                        s.log.push(format!("tb.add_mint_asset_and_output n{} {} +{} coin={} -> {}", six, hx(&name), q, coin, r.as_ref().map(ok_str).unwrap_or("PANIC".into())));
+                        r
+                    } else {
+                        let r = g!(s, "add_mint_asset_and_output_min_required_coin", tb.add_mint_asset_and_output_min_required_coin(&script, &an, &amt, &ob));
+                        s.log.push(format!("tb.add_mint_asset_and_output_min_required_coin n{} {} +{} -> {}", six, hx(&name), q, r.as_ref().map(ok_str).unwrap_or("PANIC".into())));
+                        r
+                    };
+                    let after: u128 = tb.get_explicit_output().map(|v| u64::from(v.coin()) as u128).unwrap_or(0);
+                    match res {
+                        Some(Ok(())) => {
+                            // minted and placed in the new output at once: nothing is needed from the inputs but the coin
+                            need_coin += after.saturating_sub(before);
+                        }
+                        _ => {
+                            // the mint entry is made before the output is tried: a refused output leaves the mint in place
+                            if guard(|| tb.get_mint().and_then(|m| m.get(&script.hash())).is_some()).unwrap_or(false) {
+                                *need_assets.entry((pid.clone(), name.clone())).or_insert(0) -= q as i128;
+                            }
+                        }
+                    }
+                }
+                _ => {
+                    let mut ma = MintAssets::new();
+                    let _ = ma.insert(&an, &Int::new(&BigNum::from(q)));
+                    let mut mint = Mint::new();
+                    mint.insert(&script.hash(), &ma);
+                    let mut ns = NativeScripts::new();
+                    ns.add(&script);
+
+                    let res = g!(s, "set_mint", tb.set_mint(&mint, &ns));
+                    s.log.push(format!("tb.set_mint n{} {} +{} -> {}", six, hx(&name), q, res.as_ref().map(ok_str).unwrap_or("PANIC".into())));
+                    if let Some(Ok(())) = res {
+                        *need_assets.entry((pid.clone(), name.clone())).or_insert(0) -= q as i128;
+                    }
+                }
+            }
+        }
     }
 
     // ---------------------------------------------------------------- certificates
@@ -862,7 +964,9 @@ pub fn run_scenario(r: &mut Rng, ring: &KeyRing, f: Focus) -> Option<Outcome> {
                 }
             };
             // credential: key / native / plutus
-            let mode = if kind == 0 || kind == 3 || kind == 4 { 0 } else if s.p(s.f.plutus) { 2 } else if s.p(s.f.scripts) { 1 } else { 0 };
+            // (a legacy stake registration needs no witness, whatever its credential: a caller who offers one for
+            // a script credential is told so and adds the certificate plainly)
+            let mode = if kind == 3 || kind == 4 { 0 } else if kind == 0 { if s.p(4) { 2 } else { 0 } } else if s.p(s.f.plutus) { 2 } else if s.p(s.f.scripts) { 1 } else { 0 };
             let k = s.key_ix();
             let (cred, nat_ix, pl_ix) = match mode {
                 0 => (Credential::from_keyhash(&ring.keys[k].hash), None, None),
@@ -1156,7 +1260,36 @@ pub fn run_scenario(r: &mut Rng, ring: &KeyRing, f: Focus) -> Option<Outcome> {
             let deposit = *s.r.pick(&[100_000_000_000u64, 0, 1, 1_000_000]);
             let guarded = s.p(s.f.plutus);
             let pl_ix = s.r.usize(ring.plutus.len());
-            let action = match s.r.below(4) {
+            // two cold credentials in both orders: the same action spelled with its remove-set filled the other
+            // way round is another proposal (other bytes), kept and charged on its own
+            let mut twin: Option<GovernanceAction> = None;
+            let action = match s.r.below(7) {
+                4 => GovernanceAction::new_hard_fork_initiation_action(&HardForkInitiationAction::new(&ProtocolVersion::new(10 + s.r.below(3) as u32, 0))),
+                5 => {
+                    let c1 = Credential::from_keyhash(&ring.keys[s.key_ix()].hash);
+                    let c2 = Credential::from_scripthash(&ring.natives[2].hash());
+                    let c3 = Credential::from_keyhash(&ring.keys[(s.key_ix() + 1) % ring.keys.len()].hash);
+                    let mut committee = Committee::new(&UnitInterval::new(&BigNum::from(2u64), &BigNum::from(3u64)));
+                    committee.add_member(&c3, 500 + s.r.below(100) as u32);
+                    let mut rm = Credentials::new();
+                    rm.add(&c1);
+                    rm.add(&c2);
+                    let mut rm2 = Credentials::new();
+                    rm2.add(&c2);
+                    rm2.add(&c1);
+                    if s.p(8) {
+                        twin = Some(GovernanceAction::new_new_committee_action(&UpdateCommitteeAction::new(&committee, &rm2)));
+                    }
+                    GovernanceAction::new_new_committee_action(&UpdateCommitteeAction::new(&committee, &rm))
+                }
+                6 => {
+                    let an = Anchor::new(&URL::new("https://c/1".into()).unwrap(), &AnchorDataHash::from_bytes(vec![5; 32]).unwrap());
+                    if s.r.bool() {
+                        GovernanceAction::new_new_constitution_action(&NewConstitutionAction::new(&Constitution::new_with_script_hash(&an, &ring.natives[1].hash())))
+                    } else {
+                        GovernanceAction::new_new_constitution_action(&NewConstitutionAction::new(&Constitution::new(&an)))
+                    }
+                }
                 0 => GovernanceAction::new_info_action(&InfoAction::new()),
                 1 => {
                     let mut tw = TreasuryWithdrawals::new();
@@ -1203,6 +1336,14 @@ pub fn run_scenario(r: &mut Rng, ring: &KeyRing, f: Focus) -> Option<Outcome> {
                     let r2 = g!(s, "proposals.add(again)", pb.add(&prop));
                     s.log.push(format!("the same proposal added again -> {}", r2.as_ref().map(ok_str).unwrap_or("PANIC".into())));
                 }
+                if let Some(tw) = twin {
+                    let prop2 = VotingProposal::new(&tw, &anchor, &ra, &BigNum::from(deposit));
+                    let r2 = g!(s, "proposals.add(twin)", pb.add(&prop2));
+                    s.log.push(format!("the same committee update with its remove-set in the other order -> {}", r2.as_ref().map(ok_str).unwrap_or("PANIC".into())));
+                    if let Some(Ok(())) = r2 {
+                        need_coin += deposit as u128;
+                    }
+                }
             }
         }
         g!(s, "set_voting_proposal_builder", tb.set_voting_proposal_builder(&pb));
@@ -1235,11 +1376,57 @@ pub fn run_scenario(r: &mut Rng, ring: &KeyRing, f: Focus) -> Option<Outcome> {
         }
         s.log.push(format!("aux data set{}", if empty { " (empty)" } else { "" }));
     }
+    // the metadata helpers of the builder: each goes through the auxiliary data already there (or creates it);
+    // whatever they leave behind, the body must announce the hash of what the transaction carries
+    if s.p(3) {
+        for _ in 0..1 + s.r.below(3) {
+            let label = BigNum::from(*s.r.pick(&[674u64, 721, 0, 1 << 40]));
+            match s.r.below(5) {
+                0 => {
+                    g!(s, "add_metadatum", tb.add_metadatum(&label, &TransactionMetadatum::new_int(&Int::new_i32(-7))));
+                }
+                1 => {
+                    let r = g!(s, "add_json_metadatum", tb.add_json_metadatum(&label, "{\"k\":[1,\"two\",{\"3\":\"0xff\"}]}".to_string()));
+                    s.log.push(format!("add_json_metadatum -> {}", r.as_ref().map(ok_str).unwrap_or("PANIC".into())));
+                }
+                2 => {
+                    let schema = *s.r.pick(&[MetadataJsonSchema::NoConversions, MetadataJsonSchema::BasicConversions, MetadataJsonSchema::DetailedSchema]);
+                    let doc = if schema == MetadataJsonSchema::DetailedSchema { "{\"map\":[{\"k\":{\"int\":5},\"v\":{\"bytes\":\"00ff\"}}]}" } else { "{\"5\":\"0x00ff\",\"a\":-3}" };
+                    let r = g!(s, "add_json_metadatum_with_schema", tb.add_json_metadatum_with_schema(&label, doc.to_string(), schema));
+                    s.log.push(format!("add_json_metadatum_with_schema -> {}", r.as_ref().map(ok_str).unwrap_or("PANIC".into())));
+                }
+                3 => {
+                    // a document outside the schema: refused, and what was there stays
+                    let r = g!(s, "add_json_metadatum(bad)", tb.add_json_metadatum(&label, "{\"k\":1.5}".to_string()));
+                    s.log.push(format!("add_json_metadatum (float) -> {}", r.as_ref().map(ok_str).unwrap_or("PANIC".into())));
+                }
+                _ => {
+                    g!(s, "remove_auxiliary_data", tb.remove_auxiliary_data());
+                    s.log.push("remove_auxiliary_data".into());
+                }
+            }
+        }
+        s.log.push("metadata helpers used".into());
+    }
     if s.p(5) {
-        g!(s, "set_ttl", tb.set_ttl_bignum(&BigNum::from(s.r.wide_u64())));
+        if s.p(4) {
+            g!(s, "set_ttl(u32)", tb.set_ttl(s.r.wide_u64() as u32));
+        } else {
+            g!(s, "set_ttl", tb.set_ttl_bignum(&BigNum::from(s.r.wide_u64())));
+        }
+        if s.p(1) {
+            g!(s, "remove_ttl", tb.remove_ttl());
+        }
     }
     if s.p(3) {
-        g!(s, "set_validity_start", tb.set_validity_start_interval_bignum(BigNum::from(s.r.below(1 << 33))));
+        if s.p(4) {
+            g!(s, "set_validity_start(u32)", tb.set_validity_start_interval(s.r.below(1 << 32) as u32));
+        } else {
+            g!(s, "set_validity_start", tb.set_validity_start_interval_bignum(BigNum::from(s.r.below(1 << 33))));
+        }
+        if s.p(1) {
+            g!(s, "remove_validity_start_interval", tb.remove_validity_start_interval());
+        }
     }
     if s.p(4) {
         for _ in 0..1 + s.r.below(2) {
@@ -1337,7 +1524,19 @@ pub fn run_scenario(r: &mut Rng, ring: &KeyRing, f: Focus) -> Option<Outcome> {
                 let o = s.outpoint(i);
                 let res = if use_direct_api {
                     let sv = s.sloppy(val_to_csl(&val));
-                    g!(s, "add_regular_input", tb.add_regular_input(&addr, &Scn::tx_input(&o), &sv))
+                    if s.p(5) {
+                        // the address-less wrapper: the caller names the payment key hash itself
+                        g!(s, "add_key_input", tb.add_key_input(&ring.keys[k].hash, &Scn::tx_input(&o), &sv)).map(|_| Ok(()))
+                    } else {
+                        g!(s, "add_regular_input", tb.add_regular_input(&addr, &Scn::tx_input(&o), &sv))
+                    }
+                } else if s.p(2) {
+                    let sv = s.sloppy(val_to_csl(&val));
+                    if s.r.bool() {
+                        g!(s, "inputs.add_key_input", inputs_b.add_key_input(&ring.keys[k].hash, &Scn::tx_input(&o), &sv)).map(|_| Ok(()))
+                    } else {
+                        g!(s, "inputs.add_regular_input", inputs_b.add_regular_input(&addr, &Scn::tx_input(&o), &sv))
+                    }
                 } else {
                     let carried = s.carried_script(i);
                     let u = s.csl_utxo(i, None, carried.as_ref());
@@ -1348,7 +1547,20 @@ pub fn run_scenario(r: &mut Rng, ring: &KeyRing, f: Focus) -> Option<Outcome> {
                         let (m_stale, red) = s.redeemer(RedeemerTag::new_spend());
                         let wit = PlutusWitness::new_with_ref_without_datum(&PlutusScriptSource::new(&ring.plutus[si]), &red);
                         // (the address-less call: add_plutus_script_utxo refuses a key address)
-                        let _ = g!(s, "inputs.add_plutus_script_input(superseded)", inputs_b.add_plutus_script_input(&wit, &u.input(), &u.output().amount()));
+                        // (now and then the first registration also got the amount wrong: the later one corrects it)
+                        let first_amount = if s.p(6) {
+                            s.log.push("(the first registration named a wrong amount)".into());
+                            let mut w = Value::new(&u.output().amount().coin().checked_add(&BigNum::from(1_000_000u64)).unwrap_or(BigNum::from(7u64)));
+                            if s.r.bool() {
+                                if let Some(ma) = u.output().amount().multiasset() {
+                                    w.set_multiasset(&ma);
+                                }
+                            }
+                            w
+                        } else {
+                            u.output().amount()
+                        };
+                        let _ = g!(s, "inputs.add_plutus_script_input(superseded)", inputs_b.add_plutus_script_input(&wit, &u.input(), &first_amount));
                         if s.p(8) {
                             // ... and had the script data hash computed in between: the later computation (after
                             // the correction) replaces it, also when no script data is left
@@ -1499,7 +1711,16 @@ pub fn run_scenario(r: &mut Rng, ring: &KeyRing, f: Focus) -> Option<Outcome> {
             let addr = if byron { ring.byron[s.r.usize(ring.byron.len())].addr.to_address() } else { let k = s.key_ix(); s.key_address(k) };
             let i = s.new_utxo(&addr, v);
             let u = s.csl_utxo(i, None, None);
-            let _ = g!(s, "collateral.add_regular_utxo", cb.add_regular_utxo(&u));
+            if !byron && s.p(2) {
+                // the caller's own bookkeeping of the collateral UTxO's value (now and then listing a token it no longer holds)
+                let mut sv = u.output().amount();
+                for _ in 0..4 {
+                    sv = s.sloppy(sv);
+                }
+                let _ = g!(s, "collateral.add_regular_input", cb.add_regular_input(&u.output().address(), &u.input(), &sv));
+            } else {
+                let _ = g!(s, "collateral.add_regular_utxo", cb.add_regular_utxo(&u));
+            }
             s.log.push(format!("collateral {} coin={} assets={}", if byron { "byron" } else { "key" }, s.utxos[i].val.coin, s.utxos[i].val.assets.len()));
         }
         g!(s, "set_collateral", tb.set_collateral(&cb));
@@ -1667,6 +1888,14 @@ pub fn run_scenario(r: &mut Rng, ring: &KeyRing, f: Focus) -> Option<Outcome> {
     let mut cc = ChangeConfig::new(&change_addr);
     if s.p(2) {
         cc = cc.change_plutus_data(&OutputDatum::new_data_hash(&hash_plutus_data(&PlutusData::new_bytes(vec![9]))));
+    } else if s.p(2) {
+        cc = cc.change_plutus_data(&OutputDatum::new_data(&PlutusData::new_bytes(vec![9; 33])));
+    }
+    if s.p(3) {
+        // change that carries a script reference: part of every change output's size, minimum ADA and of the fee
+        let sr = if s.r.bool() { ScriptRef::new_native_script(&ring.natives[4]) } else { ScriptRef::new_plutus_script(&ring.plutus[0]) };
+        cc = cc.change_script_ref(&sr);
+        s.log.push("change config carries a script reference".into());
     }
     let balance_result: Result<String, String> = match balance {
         Balance::AddChange => g!(s, "add_change_if_needed", tb.add_change_if_needed(&change_addr)).map(|r| r.map(|b| format!("{}", b)).map_err(|e| format!("{:?}", e))).unwrap_or(Err("PANIC".into())),
